@@ -1,5 +1,6 @@
 import SccacheModel.Proofs.Lru
 import SccacheModel.Proofs.LruReadOnly
+import SccacheModel.Proofs.LruSync
 
 /-! # C07 — the disk cache stays within its size limit, evicts in LRU order, never wedges
 
@@ -20,6 +21,37 @@ theorem size_limit (cap : Nat) (ops : List LOp) :
 /-- non-vacuity: a reachable, non-poisoned state with an eviction behind it -/
 example : let c := [LOp.insertBytes 1 10, .insertBytes 2 10, .prepareAdd 3 5].foldl lstep { cap := 20 }
     c.poisoned = false ∧ c.lruSize + c.pendingSize = 15 := by decide
+
+/-- `index_eq_disk`: after **every** sequence of public operations (nobody else deletes entry files; a reopen sees the
+    directory as it is) every indexed entry exists on disk with exactly the recorded size, no other entry file exists
+    (`entries` is a permutation of `files`), and no key is indexed twice. -/
+theorem index_eq_disk (cap : Nat) (ops : List LOp) (h : GoodHistory { cap := cap } ops) :
+    let c := ops.foldl lstep { cap := cap }
+    c.entries.Perm c.files ∧ KeysNodup c.entries := Lru.index_eq_disk cap ops h
+
+/-- `evicts_lru_prefix`: whenever space is made, what is removed is a **prefix of the recency order** — strictly the
+    least recently used entries first (the index is kept oldest-first). -/
+theorem evicts_lru_prefix (c c' : Lru) (n : Nat) (r : Res) (h : c.makeSpace n = (c', r)) (hs : Sync c) :
+    ∃ m, c'.entries = c.entries.drop m := (Lru.makeSpace_sync c c' n r h hs).2
+
+/-- a successful lookup counts as use: the key moves to the recent end and nothing else changes order -/
+theorem get_moves_to_back (c : Lru) (k : Key) (e : Key × Nat) (h : c.entries.find? (·.1 == k) = some e) :
+    (c.get k).1.entries = eraseKey c.entries k ++ [e] := by
+  unfold Lru.get; rw [h]; simp only; split <;> rfl
+
+/-- a store puts its key at the recent end -/
+theorem insert_at_back (c : Lru) (k : Key) (n : Nat) (h : c.lruSize + n ≤ c.cap) :
+    (c.lruInsert k n).entries = eraseKey c.entries k ++ [(k, n)] := Lru.lruInsert_entries c k n h
+
+/-- recency survives a restart: re-opening a directory that fits indexes the files in the order given (oldest mtime
+    first), so the eviction order afterwards is the mtime order -/
+theorem reopen_order_is_mtime_order (c : Lru) (order : List (Key × Nat)) (hfit : (order.map (·.2)).sum ≤ c.cap) :
+    (c.reopen order).files = order := Lru.reopen_keeps_files c order hfit
+
+/-- non-vacuity of `index_eq_disk`: a history with an overwrite, an eviction, a two-phase store and a reopen -/
+example : GoodHistory { cap := 20 } [.insertBytes 1 10, .insertBytes 2 10, .insertBytes 1 10, .prepareAdd 3 5, .write 0 5, .commit 0, .get 1, .reopen [(3, 5), (1, 10)]] := by
+  simp only [GoodHistory, NoExt, ReopenFaithful, and_true, true_and]
+  decide
 
 /-- `no_panic`: no sequence of public operations — including several concurrent reservations that together exceed
     the limit, overwrites of existing keys, dropped entries, externally deleted files and reopenings — makes the cache
